@@ -95,7 +95,9 @@ theorem stuck_thread {P : Project} {s : State} (lf : LockFree s) (inv1 : Inv1 P 
     simp only [next, hpc] at h
     cases hs : s.stack t with
     | nil => exact absurd hs this
-    | cons f rest => simp only [hs] at h; cases hf : f.todo <;> simp [hf] at h
+    | cons f rest =>
+      simp only [hs] at h
+      cases hbr : P.broken f.mod <;> cases hf : f.todo <;> simp [hbr, hf] at h
   | fin r =>
     have := hb (Or.inr ⟨r, hpc⟩)
     simp only [next, hpc, hm] at h
@@ -117,7 +119,7 @@ theorem stuck_thread {P : Project} {s : State} (lf : LockFree s) (inv1 : Inv1 P 
     simp only [next, hpc, hm] at h
     split at h
     · cases h
-    · cases r <;> simp at h
+    · by_cases hr : r = .ok <;> simp [hr] at h
 
 
 
